@@ -278,6 +278,7 @@ func run(c *core.Case) {
 			rejected++
 		}
 	}
+	c.Count("stale_read_probes_issued_while_fresh_leader_had_unapplied_backlog", tr.ProbeBacklogs)
 	for _, pr := range tr.Probes {
 		c.Count("stale_read_probes", 1)
 		c.Count("stale_read_probe_outcomes(write-old/read-new/write-new/read-old)."+pr, 1)
